@@ -117,6 +117,11 @@ QUERIES = [
     ("convT", "Decimal", "mile", "meter"), ("convT", "Fraction", "mile", "meter"), ("convT", "int", "mile", "meter"), ("convT", "Decimal", "pound", "gram"),
     ("convT", "int", "pound", "gram"), ("convT", "Decimal", "kilometer", "meter"), ("convT", "ndarray", "mile", "meter"), ("convT", "ndarray", "pound", "gram"),
     ("addT", "Decimal", "mile", "meter"), ("addT", "float", "mile", "meter"), ("addT", "int", "kilometer", "meter"),
+    # the same text parsed with an explicit case_sensitive argument and with the registry's default (one parse cache serves both)
+    ("parseU", "Meter", "ci"), ("parseU", "Meter", "default"), ("parseU", "KiloMeter / Second", "ci"), ("parseU", "KiloMeter / Second", "default"),
+    ("parseU", "degF / second", "default"), ("parseU", "degF / second", "nodelta"),
+    # listings restricted to a group / a system, and unrestricted (one cached set per dimensionality serves all)
+    ("compatG", "meter", "USCSLengthInternational"), ("compatG", "meter", "imperial"), ("compatG", "gram", "AvoirdupoisUS"), ("compatG", "meter", "root"),
     # base units under an explicitly named system, whatever the default system is
     ("sbase", "mile", "cgs"), ("sbase", "mile", "imperial"), ("sbase", "volt", "cgs"), ("sbase", "pound", "mks"), ("sbase", "kilometer", "cgs"),
 ]
@@ -159,6 +164,11 @@ def ask(u, q):
             if k == "sbase":
                 f, un = u.get_base_units(q[1], system=q[2])
                 return [digest(f), digest(1 * un)]
+            if k == "parseU":
+                un = u.parse_units(q[1], case_sensitive=False) if q[2] == "ci" else u.parse_units(q[1], as_delta=False) if q[2] == "nodelta" else u.parse_units(q[1])
+                return digest(1 * un)
+            if k == "compatG":
+                return sorted(str(x) for x in u.get_compatible_units(q[1], q[2]))
             if k == "parse":
                 return digest(u.parse_expression(q[1]))
             if k == "base":
